@@ -3,6 +3,7 @@ use crate::operation::Operation;
 use crate::server::SyncOp;
 use crate::storage::{StorageTxn, TaskMap};
 use crate::Operations;
+use log::warn;
 use std::collections::hash_map::Entry;
 use std::collections::HashMap;
 use uuid::Uuid;
@@ -96,16 +97,34 @@ pub(super) async fn apply_operations(
 
 /// Apply a [`SyncOp`] to the TaskDb's set of tasks (without recording it in the list of operations)
 pub(super) async fn apply_op(txn: &mut dyn StorageTxn, op: &SyncOp) -> Result<()> {
+    match try_apply_op(txn, op).await? {
+        None => Ok(()),
+        Some(invalid) => Err(Error::Database(invalid)),
+    }
+}
+
+/// Apply a [`SyncOp`] as [`apply_op`] does, but ignore an operation that does not make sense in
+/// the current state. Errors from the storage backend are still returned.
+pub(super) async fn apply_op_ignoring_invalid(txn: &mut dyn StorageTxn, op: &SyncOp) -> Result<()> {
+    if let Some(invalid) = try_apply_op(txn, op).await? {
+        warn!("Invalid operation when syncing: {invalid} (ignored)");
+    }
+    Ok(())
+}
+
+/// Apply a [`SyncOp`], returning a description of the problem if the operation does not make
+/// sense in the current state (in which case nothing was changed).
+async fn try_apply_op(txn: &mut dyn StorageTxn, op: &SyncOp) -> Result<Option<String>> {
     match op {
         SyncOp::Create { uuid } => {
             // insert if the task does not already exist
             if !txn.create_task(*uuid).await? {
-                return Err(Error::Database(format!("Task {uuid} already exists")));
+                return Ok(Some(format!("Task {uuid} already exists")));
             }
         }
         SyncOp::Delete { ref uuid } => {
             if !txn.delete_task(*uuid).await? {
-                return Err(Error::Database(format!("Task {uuid} does not exist")));
+                return Ok(Some(format!("Task {uuid} does not exist")));
             }
         }
         SyncOp::Update {
@@ -122,12 +141,12 @@ pub(super) async fn apply_op(txn: &mut dyn StorageTxn, op: &SyncOp) -> Result<()
                 };
                 txn.set_task(*uuid, task).await?;
             } else {
-                return Err(Error::Database(format!("Task {uuid} does not exist")));
+                return Ok(Some(format!("Task {uuid} does not exist")));
             }
         }
     }
 
-    Ok(())
+    Ok(None)
 }
 
 #[cfg(test)]
